@@ -187,6 +187,47 @@ class ReuseIdentifier(Scenario):
         return "refused" if refused else "created"
 
 
+class ReusePropertyGroupIdentifier(Scenario):
+    """a property group requested with the identifier of another live property group (or a free one)"""
+    pid = "C06"
+
+    def body(self, cx):
+        from geoh5py.workspace import Workspace
+        same = bool(cx.bool("same_uid"))
+        same_obj = bool(cx.bool("same_object"))
+        ws = Workspace()
+        a = _make(ws, 1, U[0])
+        da = a.add_data({"da": {"values": _np.zeros(2)}})
+        pga = a.find_or_create_property_group(name="pga", properties=[da.uid], uid=U[2])
+        b = a if same_obj else _make(ws, 2, U[1])
+        db = b.add_data({"db": {"values": _np.zeros(2)}})
+        before = sorted((str(p.uid), p.name) for p in ws.property_groups)
+        try:
+            pgb = b.create_property_group(name="pgb", properties=[db.uid], uid=U[2] if same else U[3])
+            refused = False
+        except RuntimeError:
+            refused, pgb = True, None
+        cx.prove(refused == same, "a property-group identifier in use is refused, a free one accepted", "reuse refused")
+        live = [p for p in ws.property_groups if p.uid == U[2]]
+        cx.prove(len(live) == 1 and live[0] is pga, "the identifier still belongs to its one owner", "uniqueness")
+        if refused:
+            cx.prove(sorted((str(p.uid), p.name) for p in ws.property_groups) == before,
+                     "refused request leaves the property-group listing unchanged", "refusal side effects")
+        ws.close()
+        try:
+            ws2 = Workspace(ws.h5file)
+            ok = True
+        except Exception:  # noqa: BLE001
+            ok = False
+        cx.prove(ok, "the file can still be opened after the request", "refusal side effects")
+        if ok:
+            ids = [str(p.uid) for o in ws2.objects for p in (o.property_groups or [])]
+            cx.prove(len(ids) == len(set(ids)) and ids.count(str(U[2])) == 1,
+                     "in the file the identifier occurs once", "refusal side effects")
+            ws2.close()
+        return "refused" if refused else "created"
+
+
 class CopyIdentifiers(Scenario):
     pid = "C06"
 
@@ -279,7 +320,7 @@ class OneTypePerClass(Scenario):
 
 def main(tier, seed):
     rc1 = run_property(
-        "C06", [ReuseIdentifier(), CopyIdentifiers(), CopyAfterRemoval(), OneTypePerClass()], tier, seed,
+        "C06", [ReuseIdentifier(), ReusePropertyGroupIdentifier(), CopyIdentifiers(), CopyAfterRemoval(), OneTypePerClass()], tier, seed,
         assumptions=["workspace level: the real in-memory Workspace (real h5py, real numpy) is driven by the symx explorer; only "
                      "entity kinds and flags are symbolic, every feasible combination is one path",
                      "garbage collection is not a variable: entities stay referenced by the harness"],
@@ -287,9 +328,10 @@ def main(tier, seed):
                  "remove / re-create histories and GC timing", "data and property-group identifier collisions"],
         bounds="entity kinds {ContainerGroup, Points, Curve} x same/free identifier; copy flags (same/other workspace, occupied, "
                "with data, with property group)",
-        expected_outcomes={"ReuseIdentifier": {"refused"}, "CopyIdentifiers": {"ok"}, "CopyAfterRemoval": {"ok"},
+        expected_outcomes={"ReuseIdentifier": {"refused"}, "ReusePropertyGroupIdentifier": {"refused"}, "CopyIdentifiers": {"ok"},
+                           "CopyAfterRemoval": {"ok"},
                            "OneTypePerClass": {"ok"}},
-        jobs=4,
+        jobs=5,
     )
     rc2 = run_xh(
         "C06", PRELUDE, CONDS, tier, seed,
